@@ -11,8 +11,11 @@ let bind x f = match x with Ok v -> f v | Exit -> Exit | OOB -> OOB | Fuel -> Fu
 exception Abandon
 exception Stop of string
 let kind_of = function "I" -> KInt | "F" -> KFun | "U" -> KVal | "D" -> KDef | k -> failwith ("unknown kind " ^ k)
-let read_levels r d =
-  List.init d (fun _ -> let k = kind_of (word r) in let n = integer r in let a = num r in let b = num r in ((k, nat_of_int n), (a, b)))
+(* levels with an optional handler: a kind followed by 'c' carries the substitute value *)
+let read_levelsX r d =
+  List.init d (fun _ -> let w = word r in let k = kind_of (String.sub w 0 1) in let n = integer r in let a = num r in let b = num r in
+    let h = if String.length w > 1 && w.[1] = 'c' then Some (num r) else None in (((k, nat_of_int n), (a, b)), h))
+let read_levels r d = List.map (fun (l, h) -> if h <> None then failwith "handler in a plain nest"; l) (read_levelsX r d)
 let count = ref 0
 let abandon_at = ref 0
 let read_core r : float list -> float res =
@@ -25,6 +28,21 @@ let read_core r : float list -> float res =
         bind (gl_rule fops (nat_of_int n) a b) (fun rw ->
         bind (gl_integrate_values fops (List.init k (fun _ -> 1.0)) rw) (fun s -> Ok (ev *. s))))
   | c -> failwith ("unknown core " ^ c)
+(* the same cores for integrands that may throw: Ok None = an exception propagates (T: where cond < 0; X requests: from the
+   at-th evaluation on) *)
+let read_coreX r : float list -> float option res =
+  let arr xs = let v = Array.make 16 0.0 in List.iteri (fun k x -> if k < 16 then v.(k) <- x) xs; v in
+  let tick () = incr count; !abandon_at > 0 && !count >= !abandon_at in
+  match word r with
+  | "P" -> let e = parse_fexpr r in (fun xs -> if tick () then Ok None else Ok (Some (eval_fexpr e (arr xs))))
+  | "T" -> let c = parse_fexpr r in let e = parse_fexpr r in
+      (fun xs -> if tick () then Ok None else if eval_fexpr c (arr xs) < 0.0 then Ok None else Ok (Some (eval_fexpr e (arr xs))))
+  | "G" -> let k = integer r in let n = integer r in let a = num r in let b = num r in let e = parse_fexpr r in
+      (fun xs -> if tick () then Ok None else let ev = eval_fexpr e (arr xs) in
+        bind (gl_rule fops (nat_of_int n) a b) (fun rw ->
+        bind (gl_integrate_values fops (List.init k (fun _ -> 1.0)) rw) (fun s -> Ok (Some (ev *. s)))))
+  | c -> failwith ("unknown core " ^ c)
+let put_x = function Some v -> put_f v | None -> put_w "A"; put_i !count
 let force = function Ok v -> v | Exit -> raise (Stop "EXIT") | OOB -> raise (Stop "OOB") | Fuel -> raise (Stop "FUEL")
 let stop_with w = Buffer.clear buf; first := true; put_w w
 
@@ -69,6 +87,17 @@ let handler r =
           let levs' = match levs with ((_, n), ab) :: rest -> ((k, n), ab) :: rest | [] -> [] in
           put_f (force (gl_nest fops levs' core []))) [KInt; KFun; KVal]
        with Stop w -> stop_with w)
+  | "nestx" -> (* integrands that throw and handle: the outermost level through each overload, then every level through (values, rule) *)
+      let d = integer r in let levs = read_levelsX r d in let core = read_coreX r in
+      (try
+        List.iter (fun variant ->
+          let levs' = match variant, levs with
+            | Some k, (((_, n), ab), h) :: rest -> (((k, n), ab), h) :: rest
+            | None, _ -> List.map (fun (((k, n), ab), h) -> (((KVal, (if k = KDef then nat_of_int 30 else n)), ab), h)) levs
+            | _, [] -> [] in
+          count := 0; abandon_at := 0;
+          put_x (force (gl_nestX fops levs' core []))) [Some KInt; Some KFun; Some KVal; None]
+       with Stop w -> stop_with w)
   | "sess" ->
       let k = integer r in
       (try
@@ -80,11 +109,10 @@ let handler r =
               put_f (force (bind (gl_rule fops (nat_of_int n) a b) (fun rw -> gl_integrate_values fops vals rw)))
           | ("N" | "X") as c ->
               let at = if c = "X" then integer r else 0 in
-              let d = integer r in let levs = read_levels r d in let core = read_core r in
+              let d = integer r in let levs = read_levelsX r d in let core = read_coreX r in
               count := 0; abandon_at := at;
-              (match (try Some (gl_nest fops levs core []) with Abandon -> None) with
-               | Some v -> abandon_at := 0; put_f (force v)
-               | None -> abandon_at := 0; put_w "A"; put_i !count)
+              let v = gl_nestX fops levs core [] in
+              abandon_at := 0; put_x (force v)
           | c -> failwith ("unknown request " ^ c)
         done
        with Stop w -> stop_with w)
